@@ -18,17 +18,18 @@ Definition unknown_incidental_sites : list inc_site := filter (fun i => negb (in
 Theorem no_unclassified_map_site : unclassified_map_sites = [].
 Proof. vm_compute. reflexivity. Qed.
 
-(** every `for … range <map>` of the consensus code is a site the table knows, with the expected shape
-    and callees, under a justification whose lemma is proved *)
+(** every `for … range <map>` of the consensus code is either of an automatically accepted
+    order-insensitive shape (proved lemma per shape, pure callees only) or matches a table line
+    (package, map type, shape, effectful callees) whose justification is proved / reviewed *)
 Theorem every_map_site_classified : Forall site_ok map_sites.
 Proof.
   apply Forall_forall. intros s Hs. unfold site_ok. revert s Hs. apply forallb_forall.
   apply filter_nil_forallb. exact no_unclassified_map_site.
 Qed.
 
-(** the table has no line without a site (a sorted site cannot silently disappear or be renamed) *)
-Theorem no_stale_table_entry : stale_table_entries = [].
-Proof. vm_compute. reflexivity. Qed.
+(** WARNING only (never an obligation): table lines that match no site any more — the loop was removed or
+    changed into an automatically accepted shape; the line can be deleted at leisure. *)
+Eval vm_compute in (map e_where stale_table_entries).
 
 (** every result of set.Set.ToSlice is only measured, sorted, or printed *)
 Theorem every_toslice_use_ok : unjustified_toslice_uses = [].
